@@ -256,7 +256,8 @@ fn lf_last_added(c: &Case, final_ids: &[u64]) -> Option<u64> {
 /// Runs add_inputs_from under the script; returns the result line and the draws (range, value) made.
 fn run_impl(c: &Case) -> (String, Vec<(u64, u64)>) {
     let pre: Vec<&U> = c.pre.iter().collect();
-    let mut tb = match builder(c, &pre) { Ok(t) => t, Err(e) => return (format!("unbuildable {}", e.replace(' ', "_")), vec![]) };
+    // (add_output refuses amounts with a zero quantity or an asset-less policy since /repo bb8d7fa: no builder, no selection)
+    let mut tb = match builder(c, &pre) { Ok(t) => t, Err(_) => return ("unbuildable".to_string(), vec![]) };
     let mut offered = TransactionUnspentOutputs::new();
     for u in &c.offered { offered.add(&utxo(u)); }
     verif_hooks::verif_set_rng_script(Some(c.choices.clone()));
@@ -367,6 +368,7 @@ fn answer(c: &Case, by_id: &HashMap<u64, &U>, need: &[&str], cache: &mut HashMap
 /// The full case line (with oracle section) for which the model runs through.
 fn complete(c: &Case, orc: &mut Oracle, cache: &mut HashMap<String, String>) -> String {
     let base = show_case(c);
+    { let pre: Vec<&U> = c.pre.iter().collect(); if builder(c, &pre).is_err() { return format!("{} Q 0", base); } }
     let by_id = utxo_index(c);
     let mut entries: Vec<String> = vec![];
     for _round in 0..400 {
@@ -448,6 +450,8 @@ fn gen_scenario(r: &mut Rng, max_utxos: u64) -> Case {
                    else { r.range(budget / 5, budget.max(budget / 5)) };
         outs.push(U { id: 0, addr: (10 + r.below(2)).to_string(), val: V { coin, ma } });
     }
+    // the library refuses output amounts with a zero quantity (kept in 1 scenario of 40: the builder cannot be made)
+    if !r.chance(1, 40) { for o in outs.iter_mut() { if let Some(es) = o.val.ma.as_mut() { for e in es.iter_mut() { if e.2 == 0 { e.2 = 1; } } } } }
     // the library refuses outputs below the minimum ada: raise them
     for o in outs.iter_mut() {
         let out = TransactionOutput::new(&address(&o.addr), &value(&o.val));
